@@ -406,6 +406,7 @@ void SmootherTake::buildAscMatrices()
         // Circular Section //
         #pragma omp for nowait
         for (int circle_Asc_index = 0; circle_Asc_index < number_smoother_circles; circle_Asc_index++) {
+            VERIF_ITER(circle_Asc_index);
 
             /* Inner boundary circle */
             if (circle_Asc_index == 0) {
@@ -434,6 +435,7 @@ void SmootherTake::buildAscMatrices()
         // Radial Section //
         #pragma omp for nowait
         for (int radial_Asc_index = 0; radial_Asc_index < grid_.ntheta(); radial_Asc_index++) {
+            VERIF_ITER(radial_Asc_index);
             auto& solverMatrix = radial_tridiagonal_solver_[radial_Asc_index];
             solverMatrix       = SymmetricTridiagonalSolver<double>(num_radial_nodes);
             solverMatrix.is_cyclic(false);
@@ -448,11 +450,13 @@ void SmootherTake::buildAscMatrices()
     {
         #pragma omp for nowait
         for (int i_r = 0; i_r < grid_.numberSmootherCircles(); i_r++) {
+            VERIF_ITER(i_r);
             buildAscCircleSection(i_r);
         }
 
         #pragma omp for nowait
         for (int i_theta = 0; i_theta < grid_.ntheta(); i_theta++) {
+            VERIF_ITER(i_theta);
             buildAscRadialSection(i_theta);
         }
     }
